@@ -7,7 +7,7 @@ ids=$(python3 -c "import json; print(' '.join(c['property_id'] for c in json.loa
 for s in $seeds; do
   for id in $ids; do
     t0=$(date +%s)
-    out=$(VERIF_SEED=$s ./check $id $tier 2>&1); rc=$?
+    out=$(VERIF_SEED=$s VERIF_OUT=${SWEEP_OUT:-/verif} ./check $id $tier 2>&1); rc=$?
     t1=$(date +%s)
     echo "seed=$s $id rc=$rc $((t1-t0))s $(echo "$out" | grep -c '^VIOLATION') viol $(echo "$out" | grep -c KNOWN-FINDING) known | $(echo "$out" | grep 'seed=' | tail -1 | cut -c1-150)"
   done
